@@ -294,11 +294,27 @@ def _strip_pad(pts, d):
     return res
 
 
+def _num(case, c):
+    """a control coordinate as the caller would pass it: a float, or a Python int when the case says so"""
+    return int(FR(c)) if case.get("ints") else fl(c)
+
+
+def _integerise(case):
+    """round every control coordinate to an integer and mark the case so that ints (not floats) are handed to the library"""
+    def r(c): return fs(FR(round(FR(c))))
+    if case["t"] in ("curve", "cpoly"):
+        case["P"] = [[r(c) for c in p] for p in case["P"]]
+    else:
+        case["P"] = [[[r(c) for c in p] for p in row] for row in case["P"]]
+    case["ints"] = True
+    return case
+
+
 def _bezier_objs(case):
     import mouette as M
     if case["t"] in ("curve", "cpoly"):
-        return M.splines.BezierCurve([[fl(c) for c in p] for p in case["P"]])
-    return M.splines.BezierPatch([[[fl(c) for c in p] for p in row] for row in case["P"]])
+        return M.splines.BezierCurve([[_num(case, c) for c in p] for p in case["P"]])
+    return M.splines.BezierPatch([[[_num(case, c) for c in p] for p in row] for row in case["P"]])
 
 
 def _canon_quads(faces):
@@ -1120,7 +1136,10 @@ def cases(rng, tier):
             "patch": lambda: gen_patch(rng, big), "cpoly": lambda: gen_cpoly(rng, big), "psurf": lambda: gen_psurf(rng, big)}
     for k, n in ns.items():
         for _ in range(n):
-            yield gens[k]()
+            c = gens[k]()
+            if k in ("curve", "patch", "cpoly", "psurf") and rng.random() < 0.2:
+                _integerise(c)       # control points given as Python ints: evaluation must not inherit an integer dtype
+            yield c
     if big:
         for kind in ("polyline", "polyline", "surface", "surface"):
             yield gen_chi2(rng, kind)
@@ -1134,6 +1153,8 @@ def search_on_break(rng, broken, mismatches):
     for n in (1, 2, 3, 5):
         c = gen_cpoly(rng); c["n"] = n; c["custom"] = None; yield c
     for _ in range(20): yield gen_cpoly(rng)
+    for _ in range(20): yield _integerise(gen_curve(rng))
+    for _ in range(10): yield _integerise(gen_patch(rng))
     for r in _RADII:
         c = gen_ballsphere(rng, "ball"); c["r"] = r; c["n"] = 4; c["g"] = [_gen_dir(rng) for _ in range(4)]
         c["u"] = [fs(ONE_MINUS), "1/8", "343/512", _gen_u(rng)]; yield c
